@@ -269,30 +269,66 @@ def r11b(ctx: Context) -> None:
         rule.fail(key, where(prog.functions[qual]), f"on the path that swallows a pragma line, {prog.functions[qual].short} mutates parser state ('{mutated}')", prog.witness(found_path, qual))
     else:
         rule.ok(key, f"{len(found_path)} functions reachable before/inside the recogniser, none touches token_stack/token_document")
-    # the found flag leads to 'return [], None, None, None, False, False'
-    flag_name = None
-    for node in walk_local(handler.node):
-        if isinstance(node, ast.Assign) and node.value is handler_sites[0].node and isinstance(node.targets[0], ast.Tuple):
-            rets = returns_of(setup)
-            for ret in rets:
-                if isinstance(ret, ast.Tuple):
-                    for index, elt in enumerate(ret.elts):
-                        if isinstance(elt, ast.Constant) and elt.value is True and isinstance(node.targets[0].elts[index], ast.Name):
-                            flag_name = node.targets[0].elts[index].id
+    # the value that setup returns when the recogniser reported a pragma must lead the line handler to
+    # 'return [], None, None, None, False, False' at once - whatever shape that value has (a flag inside a
+    # tuple, None instead of a tuple, ...)
     key = func_key(handler) + ": pragma found return"
-    if flag_name is None:
-        rule.fail(key, where(handler), "cannot find the 'pragma found' flag returned by the setup function")
+    found_returns = [r for r in walk_local(setup.node) if isinstance(r, ast.Return) and any(pol and any(sub is wrapper_sites[0].node for sub in ast.walk(t)) for t, pol in guards_of(setup.node, r))]
+    other_returns = [r for r in walk_local(setup.node) if isinstance(r, ast.Return) and r not in found_returns]
+    if not found_returns or not other_returns:
+        rule.fail(key, where(setup), "the setup function no longer tells its caller apart whether the line was a pragma")
         return
+    call_stmt = None
+    block: List[ast.stmt] = []
+    for holder in ast.walk(handler.node):
+        for field in ("body", "orelse"):
+            stmts = getattr(holder, field, None)
+            if isinstance(stmts, list):
+                for stmt in stmts:
+                    if isinstance(stmt, ast.Assign) and stmt.value is handler_sites[0].node:
+                        call_stmt, block = stmt, stmts
+    if call_stmt is None:
+        rule.fail(key, where(handler), "the result of the setup function is not kept")
+        return
+
+    def value_of(test: ast.AST, returned: Optional[ast.AST]) -> Optional[bool]:
+        """truth value of the handler's test when setup returned ``returned``"""
+        target = call_stmt.targets[0]
+        if isinstance(test, ast.UnaryOp) and isinstance(test.op, ast.Not):
+            inner = value_of(test.operand, returned)
+            return None if inner is None else not inner
+        if isinstance(test, ast.Compare) and len(test.ops) == 1 and isinstance(test.comparators[0], ast.Constant) and test.comparators[0].value is None:
+            inner_none = None
+            if isinstance(test.left, ast.Name) and isinstance(target, ast.Name) and test.left.id == target.id:
+                inner_none = isinstance(returned, ast.Constant) and returned.value is None or returned is None
+            if inner_none is None:
+                return None
+            return inner_none if isinstance(test.ops[0], ast.Is) else (not inner_none) if isinstance(test.ops[0], ast.IsNot) else None
+        if isinstance(test, ast.Name):
+            if isinstance(target, ast.Name) and test.id == target.id:
+                return not (returned is None or (isinstance(returned, ast.Constant) and not returned.value))
+            if isinstance(target, ast.Tuple) and isinstance(returned, ast.Tuple) and len(returned.elts) == len(target.elts):
+                for element, value in zip(target.elts, returned.elts):
+                    if isinstance(element, ast.Name) and element.id == test.id and isinstance(value, ast.Constant):
+                        return bool(value.value)
+        return None
+
     good = False
-    for node in walk_local(handler.node):
-        if isinstance(node, ast.If) and norm(node.test) == flag_name and node.body and isinstance(node.body[0], ast.Return):
-            value = node.body[0].value
-            if isinstance(value, ast.Tuple) and isinstance(value.elts[0], ast.List) and not value.elts[0].elts and all(isinstance(e, ast.Constant) and e.value in (None, False) for e in value.elts[1:]):
-                good = node.lineno < handler_sites[0].node.lineno + 12
+    position = block.index(call_stmt)
+    for following in block[position + 1:]:
+        if isinstance(following, ast.Expr) and isinstance(following.value, ast.Call) and _is_logging(prog, handler, following.value):
+            continue
+        if isinstance(following, ast.If) and following.body and isinstance(following.body[0], ast.Return):
+            when_found = [value_of(following.test, r.value) for r in found_returns]
+            when_other = [value_of(following.test, r.value) for r in other_returns]
+            value = following.body[0].value
+            empty = isinstance(value, ast.Tuple) and isinstance(value.elts[0], ast.List) and not value.elts[0].elts and all(isinstance(e, ast.Constant) and e.value in (None, False) for e in value.elts[1:])
+            good = empty and all(v is True for v in when_found) and all(v is False for v in when_other)
+        break
     if good:
         rule.ok(key, "returns no tokens, no requeue, no state change")
     else:
-        rule.fail(key, where(handler), f"when '{flag_name}' is set the line handler does not return the empty result at once")
+        rule.fail(key, where(handler), "when the setup function reports a pragma line the line handler does not return the empty result at once")
 
 
 def r11c(ctx: Context) -> None:
